@@ -111,7 +111,7 @@ package page
 //@   modifies cast(self, "*factory").pages[*], cast(self, "*factory").size.val
 //@   ensures result1 == nil ==> (fhas(self, index) && fpage(self, index) == result0 && pageOK(result0) && psize(result0) == fpsize(self) && pfactory(result0) == self)
 //@   ensures (result1 == nil && old(fhas(self, index))) ==> result0 == old(fpage(self, index))
-//@   ensures (result1 == nil && !old(fhas(self, index))) ==> (fresh(result0) && pbytes(result0) == page_disk(fpath(self), index))
+//@   ensures (result1 == nil && !old(fhas(self, index))) ==> (fresh(result0) && fresh(cast(result0, "*mappedPage").mappedBytes) && pbytes(result0) == page_disk(fpath(self), index))
 //@   ensures all(id, "int64", id != index ==> (fhas(self, id) == old(fhas(self, id)) && fpage(self, id) == old(fpage(self, id))))
 //@   ensures result1 != nil ==> (fhas(self, index) == old(fhas(self, index)) && fpage(self, index) == old(fpage(self, index)))
 //@   ensures factoryOK(self)
@@ -136,7 +136,7 @@ package page
 //@ # constructor of a mapped page: trusted (mmap, file system); establishes pageOK
 //@ func NewMappedPage
 //@   assume
-//@   ensures result1 == nil ==> (fresh(result0) && pageOK(result0) && psize(result0) == size && pbytes(result0) == file_disk(fileName) && pfactory(result0) == file_factory(fileName))
+//@   ensures result1 == nil ==> (fresh(result0) && fresh(cast(result0, "*mappedPage").mappedBytes) && pageOK(result0) && psize(result0) == size && pbytes(result0) == file_disk(fileName) && pfactory(result0) == file_factory(fileName))
 //@ end
 //@ uf file_factory(string) ref
 //@ func factory.pageFileName
@@ -167,7 +167,7 @@ package page
 //@   ensures[size] result1 == nil ==> psize(result0) == fpsize(f)
 //@   ensures[owner] result1 == nil ==> pfactory(result0) == f
 //@   ensures (result1 == nil && old(fhas(f, index))) ==> result0 == old(fpage(f, index))
-//@   ensures[fresh] (result1 == nil && !old(fhas(f, index))) ==> fresh(result0)
+//@   ensures[fresh] (result1 == nil && !old(fhas(f, index))) ==> (fresh(result0) && fresh(cast(result0, "*mappedPage").mappedBytes))
 //@   ensures[disk] (result1 == nil && !old(fhas(f, index))) ==> pbytes(result0) == page_disk(fpath(f), index)
 //@   ensures all(id, "int64", id != index ==> (fhas(f, id) == old(fhas(f, id)) && fpage(f, id) == old(fpage(f, id))))
 //@   ensures result1 != nil ==> (fhas(f, index) == old(fhas(f, index)) && fpage(f, index) == old(fpage(f, index)))
